@@ -38,6 +38,7 @@ func main() {
 	repo := flag.String("repo", "/repo", "repository under analysis")
 	verif := flag.String("verif", "/verif", "verification directory (evidence, known findings)")
 	debug := flag.String("debug", "", "debug dump: locks")
+	dump := flag.Bool("dump", false, "print every obligation")
 	flag.Parse()
 	start := time.Now()
 	if t := os.Getenv("VERIF_TIER"); t != "" && *tier == "" {
@@ -67,6 +68,11 @@ func main() {
 		}()
 		check(c)
 	}()
+	if *dump {
+		for _, ob := range c.R.obs {
+			fmt.Printf("%-4s %-10s %s (%s) %s\n", ob.Rule, ob.Status, ob.At, ob.Pos, ob.Detail)
+		}
+	}
 	cmd := "checker/funcheck " + strings.Join(os.Args[1:], " ")
 	os.Exit(c.R.Finish(*verif, p, start, cmd))
 }
